@@ -59,6 +59,26 @@ def _menu(name, c, A):
                 D=lambda r: -(1.0 + 0.2 * math.sqrt(r * r)), E=lambda r: (2.0 - 0.1 * r) if r > 0 else 0.0)
 
 
+def _rhs_list(nq, nz, nr):
+    """(kind, array[mode, z, r]) right-hand sides: impulse k at radial node k%nr of mode (k//nr)%nq in plane z = k%nz with a complex
+    weight, a dense one, the dense one at amplitude 1e-11 (linearity: nothing may be treated as 'zero' by an absolute tolerance),
+    and one whose lines differ in scale by 17 orders of magnitude"""
+    import numpy as np
+    out = []
+    for k in range(nr * nq):
+        R = np.zeros((nq, nz, nr), dtype=complex)
+        R[(k // nr) % nq, k % nz, k % nr] = 1.0 - 0.5j
+        out.append(('impulse', R))
+    dense = np.fromfunction(lambda a, b, cc: np.cos(1.0 + a + 2 * cc) + 1j * np.sin(0.3 + b + cc * a), (nq, nz, nr))
+    out.append(('dense', dense))
+    out.append(('tiny', dense * 1e-11))
+    mixed = dense.copy()
+    mixed[1] *= 1e-10
+    mixed[:, 1] *= 1e7
+    out.append(('mixed-scales', mixed))
+    return out
+
+
 def _dense_reference(S, breaks, nq_deg, M):
     """K0 (theta independent part), KD (m^2 part), Mass; rows = test functions, columns = trial functions"""
     import numpy as np
@@ -127,13 +147,7 @@ def _solve_case(case):
                 l = rho.getLayout('mode_solve')
                 res = []
                 # right-hand sides: impulse k at radial node k%nr of mode (k//nr)%nq in plane z = k%nz, complex weight
-                rhs = []
-                for k in range(nr * nq):
-                    R = np.zeros((nq, nz, nr), dtype=complex)
-                    R[(k // nr) % nq, k % nz, k % nr] = 1.0 - 0.5j
-                    rhs.append(R)
-                dense = np.fromfunction(lambda a, b, cc: np.cos(1.0 + a + 2 * cc) + 1j * np.sin(0.3 + b + cc * a), (nq, nz, nr))
-                rhs.append(dense)
+                rhs = [R for _, R in _rhs_list(nq, nz, nr)]
                 sl = tuple(slice(int(x), int(y)) for x, y in zip(l.starts, l.ends))
                 for R in rhs:
                     rho.getAllData()[:] = R[sl]
@@ -171,12 +185,9 @@ def _solve_case(case):
                 K = (K0 - m * m * KD)[lo:hi, lo:hi]
                 cond = np.linalg.cond(K)
                 solvers[Imode] = (lo, hi, K, cond)
+            RL = _rhs_list(nq, nz, nr)
             for k in range(nrhs):
-                if k < nr * nq:
-                    R = np.zeros((nq, nz, nr), dtype=complex)
-                    R[(k // nr) % nq, k % nz, k % nr] = 1.0 - 0.5j
-                else:
-                    R = np.fromfunction(lambda a, b, cc: np.cos(1.0 + a + 2 * cc) + 1j * np.sin(0.3 + b + cc * a), (nq, nz, nr))
+                kindv, R = RL[k]
                 for Imode in range(nq):
                     lo, hi, K, cond = solvers[Imode]
                     if not cond < 1e11:
@@ -195,7 +206,6 @@ def _solve_case(case):
                         if np.abs(want).max() > 0:
                             worst = max(worst, err / tol)
                         if not err <= tol:
-                            kindv = 'impulse' if k < nr * nq else 'dense'
                             V('solution-differs-from-galerkin:%s' % kindv, '%s p=%d mode index %d (m=%g) rhs %d: max error %.3g (|want| %.3g, cond %.2g)' % (
                                 tag, p, Imode, mv[Imode], k, err, np.abs(want).max(), cond))
                         if lo == 1 and g[0] != 0:
@@ -282,12 +292,7 @@ def _qnsolver(case):
     worst = 0.0
     for p in (1, 2, 3):
         eta = [rpts, np.linspace(0, 2 * np.pi, nq, endpoint=False), np.linspace(0, 1, nz)]
-        rhs = []
-        for k in range(nr * nq):
-            R = np.zeros((nq, nz, nr), dtype=complex)
-            R[(k // nr) % nq, k % nz, k % nr] = 1.0 - 0.5j
-            rhs.append(R)
-        rhs.append(np.fromfunction(lambda a, b, cc: np.cos(1.0 + a + 2 * cc) + 1j * np.sin(0.3 + b + cc * a), (nq, nz, nr)))
+        rhs = [R for _, R in _rhs_list(nq, nz, nr)]
 
         def fn(r):
             comm = MPI.COMM_WORLD
